@@ -84,6 +84,7 @@ Section BranchEq.
   Hypothesis Hfs : Forall2 (fun x p => fst p = sel_aliased x /\ fld_of rec_type b pf x (snd p)) sels fs.
 
   Hypothesis Hsub : forall x fd tree', In x sels -> sel_has_sub x = true -> inc b x = true ->
+    str_eqb (sel_name x) TYPENAME = false ->
     find (fun f => str_eqb (iname (fd_name f)) (sel_name x)) dfs = Some fd ->
     rec_type (sel_sub x) (gty_of (fd_type fd)) = Ok tree' ->
     sp_kind S (iname (ty_unwrapped (fd_type fd))) = LComposite /\
@@ -220,7 +221,7 @@ Section BranchEq.
       destruct (find_fields_of dfs _ _ _ Hfind Htn) as [fd [Hfd [-> _]]].
       rewrite (sp_field_type_found x fd Htn Hfd).
       change SP_TYPENAME with TYPENAME. rewrite Htn.
-      destruct (Hsub x fd t Hx Hs Hi Hfd Hr) as [Hkind Hiff].
+      destruct (Hsub x fd t Hx Hs Hi Htn Hfd Hr) as [Hkind Hiff].
       rewrite (Hiff v Hj).
       split.
       + intros [f Hv]. exists f. rewrite complete_named. rewrite complete_named in Hv.
